@@ -87,6 +87,8 @@ def py_nodes(nd):
         return tuple(nd[1:])
     if nd[0] == "np":
         return np.int64(nd[1]) if len(nd) == 2 else (np.int32(nd[1]), np.int64(nd[2]))
+    if nd[1] == "tuple0":
+        return ()
     return {"float": 3.0, "list": [3], "tuple3": (2, 2, 2), "str": "3", "tuple-float": (2.0, 2.0)}[nd[1]]
 
 
@@ -177,6 +179,8 @@ def rows_equal_up_to_sign(A, B):
 
 def oracle_matrix(order, bc, n, two_d, obs, scale=1.0, exact=True):
     """obs: dense observed matrix or None (refused).  Returns (detail, signature) or (None, '')."""
+    if n == 0:
+        return None, ""
     ref = ref_matrix(order, bc, n, two_d) if bc in BCS else None
     sig = SIG_SMALLN if small_n_periodic(order, bc, n) else "FiniteDifference.get_matrix|%s-order%d-%s" % ("2d" if two_d else "1d", order, bc)
     if obs is None:
@@ -203,6 +207,8 @@ def nullity_expected(order, bc, two_d):
 
 def oracle_prec(order, bc, n, two_d, obs):
     """P = D^T D of the reference operator; symmetric, PSD, null space as implied by the BC."""
+    if n == 0:
+        return None, ""
     obc = "none" if order == 0 else bc
     oorder = 1 if order == 0 else order
     ref = ref_matrix(oorder, obc, n, two_d) if (obc in BCS and order in (0, 1, 2)) else None
@@ -268,14 +274,16 @@ def mk_geometry(pd, dim):
     return cuqi.geometry.Image2D((N, N))
 
 
-def observe_gmrf(pd, dim, bc, order, prec=1.0, mean=None, big=False):
+def observe_gmrf(pd, dim, bc, order, prec=1.0, mean=None, big=False, mdi=None):
     """big: construct with cuqi.config.MAX_DIM_INV lowered below dim (the documented configuration knob), which
     selects the large-dimension branch of GMRF.__init__ at a size the model can evaluate exactly"""
     import cuqi
     from cuqi.distribution import GMRF
     saved = cuqi.config.MAX_DIM_INV
     try:
-        if big:
+        if mdi is not None:
+            cuqi.config.MAX_DIM_INV = mdi               # exact-threshold cells: dim - 1, dim, dim + 1
+        elif big:
             cuqi.config.MAX_DIM_INV = 1
         g = quiet(GMRF, np.zeros(dim) if mean is None else mean, prec, bc_type=bc, order=order, geometry=mk_geometry(pd, dim))
         return g, None
@@ -458,16 +466,22 @@ def gmrf_class_signature(pd, dim, bc, order):
     return SIG_RANK_OTHER
 
 
-def gmrf_cases(pd, dim, bc, order, rng, nvec=2, big=False):
+def gmrf_cases(pd, dim, bc, order, rng, nvec=2, big=False, mdi=None):
     """all cases for one GMRF configuration (big: the dim > config.MAX_DIM_INV branch, see observe_gmrf)"""
     out = []
     base = {"pd": pd, "dim": dim, "bc": bc, "order": order}
+    thr_cell = ""
+    if mdi is not None:
+        # the documented rule: the approximate (regularised) log-determinant strictly ABOVE config.MAX_DIM_INV only
+        base["mdi"] = mdi
+        big = dim > mdi
+        thr_cell = "/threshold:MAX_DIM_INV=dim%+d" % (mdi - dim) if mdi != dim else "/threshold:MAX_DIM_INV=dim"
     if big:
         base["big"] = True
     args = "%s %s %s %s" % (cnat(pd), cnat(dim), cbc(bc), cnat(order))
-    cell = "gmrf/%dd/o%d/%s%s" % (pd, order, bc if bc in BCS else "unknown", "/bigdim" if big else "")
+    cell = "gmrf/%dd/o%d/%s%s%s" % (pd, order, bc if bc in BCS else "unknown", "/bigdim" if big else "", thr_cell)
     prec = rng.choice([0.5, 1.0, 2.0, 4.0])
-    g, err = observe_gmrf(pd, dim, bc, order, prec=prec, big=big)
+    g, err = observe_gmrf(pd, dim, bc, order, prec=prec, big=big, mdi=mdi)
     # (a) refusal, coded rank, operators -- faithful model
     if g is None:
         obs_init = None
@@ -491,6 +505,13 @@ def gmrf_cases(pd, dim, bc, order, rng, nvec=2, big=False):
     if g is None:
         return out
     Pd = dense(g._prec_op.get_matrix())
+    if mdi is not None:
+        # DECISION: which branch computed the log-determinant (the spectrum is stored only by the exact branch)
+        took_regularised = bc in ("periodic", "neumann") and not hasattr(g, "_L_eigval")
+        out.append(Case(expr="check_logdet_branch %s %s %s %s" % (cbc(bc), cnat(dim), cnat(mdi), cbool(took_regularised)),
+                        meta=dict(base, op="gmrf_logdet_branch", prec=prec, observed_regularised=took_regularised,
+                                  coq_model="gmrf_uses_regularised %s %s %s" % (cbc(bc), cnat(dim), cnat(mdi))),
+                        cell=cell + "/branch", kind="DECISION"))
     # (b) sqrtprec^T sqrtprec = prec * P  (up to the sqrt(eps) shift the code adds for periodic / neumann)
     R = dense(g.sqrtprec)
     expr = "check_sqrtprec_st %s %s %s %s" % (cst(), args, cq(prec), cqmat(R.tolist()))
@@ -547,7 +568,7 @@ def gmrf_cases(pd, dim, bc, order, rng, nvec=2, big=False):
         if k == 2:                      # magnitude sweep: the same kind of vector 2^20 times larger (still exact integers)
             x = [v * 2 ** 20 for v in x]
             mean = [v * 2 ** 20 for v in mean]
-        gm, _ = observe_gmrf(pd, dim, bc, order, prec=prec, mean=np.array(mean, dtype=float) if len(mean) > 1 else float(mean[0]), big=big)
+        gm, _ = observe_gmrf(pd, dim, bc, order, prec=prec, mean=np.array(mean, dtype=float) if len(mean) > 1 else float(mean[0]), big=big, mdi=mdi)
         mvec = np.array(mean * dim if len(mean) == 1 else mean, dtype=float)
         v0 = float(np.ravel(gm.logpdf(mvec))[0])
         v = float(np.ravel(gm.logpdf(np.array(x, dtype=float)))[0])
@@ -655,6 +676,14 @@ def run(ctx):
                     continue
                 cases.append(case_fd(order, rng.randint(N1 + 1, 40), bc))
                 cases.append(case_fd(order, ["t"] + [rng.randint(N2 + 1, 9)] * 2, bc))
+    # ---- 1c. the lower boundary of num_nodes: zero nodes in every form (outside the documented domain: only
+    #          model = implementation is compared, built or refused) ------------------------------------------------
+    for order in (1, 2):
+        for bc in BCS:
+            for nd in (0, ["t", 0], ["t", 0, 0]):
+                cases.append(case_fd(order, nd, bc))
+        for bc in ("zero", "periodic", "neumann"):
+            cases.append(case_prec(order, 0, bc))
     # ---- 2. grid spacing ------------------------------------------------------------------------------
     dyadic = [0.5, 2.0, 0.25, 4, 0.125, 2]
     other = [0.1, 3, 0.3, 1e-3, 7.5, 10]
@@ -696,7 +725,7 @@ def run(ctx):
                 cases.append(case_fd(order, ["t", n, n], bc))
     # ---- 4. malformed num_nodes -----------------------------------------------------------------------
     for order in (1, 2):
-        for nd in (["t", 2, 3], ["t", 3, 1], ["bad", "float"], ["bad", "list"], ["bad", "tuple3"], ["bad", "str"], ["bad", "tuple-float"]):
+        for nd in (["t", 2, 3], ["t", 3, 1], ["t", 0, 1], ["bad", "tuple0"], ["bad", "float"], ["bad", "list"], ["bad", "tuple3"], ["bad", "str"], ["bad", "tuple-float"]):
             cases.append(case_fd(order, nd, rng.choice(["zero", "periodic", "neumann"])))
     # ---- 5. precision operators -------------------------------------------------------------------------
     for order in (0, 1, 2, 3):
@@ -748,6 +777,13 @@ def run(ctx):
             for dim in ([4, 7] if not ctx.thorough else [3, 4, 7, 12]):
                 cases += gmrf_cases(1, dim, bc, order, rng, nvec=1, big=True)
             cases += gmrf_cases(2, 9, bc, order, rng, nvec=1, big=True)
+    # ---- 7c. GMRF exactly AT the threshold config.MAX_DIM_INV: dim - 1, dim, dim + 1 for every (BC, order, 1-d / 2-d),
+    #          with the DECISION which branch computes the log-determinant and the value it gives ---------------------
+    for order in (0, 1, 2):
+        for bc in ("zero", "periodic", "neumann"):
+            for pd, dim in [(1, 6), (2, 9)] + ([(1, 16), (2, 16)] if ctx.thorough else []):
+                for mdi in (dim - 1, dim, dim + 1):
+                    cases += gmrf_cases(pd, dim, bc, order, rng, nvec=1, mdi=mdi)
     # ---- 8. LMRF / CMRF -----------------------------------------------------------------------------------
     for kind in ("lmrf", "cmrf"):
         for bc in allbc:
@@ -781,7 +817,8 @@ def rebuild(meta, rng=None):
     if op == "apply":
         return [case_apply(meta["order"], meta["nodes"], meta["bc"], meta["x"], meta["y"])]
     if op and op.startswith("gmrf"):
-        cs = gmrf_cases(meta["pd"], meta["dim"], meta["bc"], meta["order"], random.Random(0), nvec=2, big=bool(meta.get("big")))
+        cs = gmrf_cases(meta["pd"], meta["dim"], meta["bc"], meta["order"], random.Random(0), nvec=2,
+                        big=bool(meta.get("big")) and meta.get("mdi") is None, mdi=meta.get("mdi"))
         return [c for c in cs if c.meta["op"] == op] or cs
     if op in ("lmrf", "cmrf"):
         return [mrf_case_from(op, meta["pd"], meta["dim"], meta["bc"], meta["scale"], meta["x"], meta["loc"])]
